@@ -20,7 +20,7 @@ import (
 
 func init() { register("C09", "exploration", runC09) }
 
-var c09Names = []string{"p", "p.txt", "d/q", "d/e/r", "d.x", "d-y", "s t", "ü", "d/q.bin"}
+var c09Names = []string{"p", "p.txt", "d/q", "d/e/r", "d.x", "d-y", "s t", "ü", "d/q.bin", "d/e.1/r", "d/e-2/r", "d!/q"}
 
 func c09Opts() *progOpts {
 	return &progOpts{Buckets: []string{"vb1", "vb2"}, Names: c09Names, FileRules: true, CondPct: 25, JunkPct: 3, MD5Pct: 20, BigPerMille: 3,
